@@ -530,6 +530,11 @@ fn emit_fn(cx: &mut Ctx, specs: &mut Specs, em: &mut Emitter, ex: &Extract, file
             rewrite::map_param_type(&mut ty, cx, &mut lifetimes);
             let mut pat = tidy(&pt.pat.to_token_stream().to_string());
             if pat == "_" { pat = format!("_hx_arg{}", params.len()); cx.fire("P2"); }
+            if !matches!(&*pt.pat, syn::Pat::Ident(_) | syn::Pat::Wild(_)) {
+                // P3: a destructuring parameter becomes a plain parameter plus a `let` at the start of the body
+                let nm = format!("hx_arg{}", params.len()); let id = syn::Ident::new(&nm, proc_macro2::Span::call_site()); let p = &pt.pat;
+                let st: syn::Stmt = syn::parse_quote!(let #p = #id;); block.stmts.insert(0, st); pat = nm; cx.fire("P3");
+            }
             if lifted { // only parameters the block mentions are captured
                 let id = match &*pt.pat { syn::Pat::Ident(pi) => pi.ident.to_string(), _ => String::new() };
                 if !rewrite::mentions_ident(&f.block, &id) { continue; }
@@ -550,7 +555,7 @@ fn emit_fn(cx: &mut Ctx, specs: &mut Specs, em: &mut Emitter, ex: &Extract, file
     let in_impl = !lifted && fd.im.is_some();
     let in_trait_impl = in_impl && fd.im.as_ref().unwrap().trait_.is_some();
     let name = if let Some(k) = ex.opt("key") { k } else if in_impl || in_trait.is_some() { ex.path.clone() } else { name };
-    let fn_ident = if in_impl || in_trait.is_some() { f.sig.ident.to_string() } else { name.clone() };
+    let fn_ident = if let Some(r) = ex.opt("rename") { r } else if in_impl || in_trait.is_some() { f.sig.ident.to_string() } else { name.clone() };
     let indent = if in_impl || in_trait.is_some() { "    " } else { "" };
 
     // ---- emit
@@ -577,7 +582,7 @@ fn emit_fn(cx: &mut Ctx, specs: &mut Specs, em: &mut Emitter, ex: &Extract, file
     let mut loopspecs: BTreeMap<usize, (String, Option<String>, Option<String>)> = BTreeMap::new();
     for k in 0..nloops {
         let inv = specs.get(&format!("loop {} {}", name, k)).unwrap_or_default();
-        loopspecs.insert(k, (inv, specs.get(&format!("proof {} loop {} start", name, k)), specs.get(&format!("proof {} loop {} end", name, k))));
+        loopspecs.insert(k, (inv, entry_text(cx, specs.get(&format!("proof {} loop {} start", name, k))), specs.get(&format!("proof {} loop {} end", name, k))));
     }
     if is_decl { em.raw(&format!("{};", indent)); }
     else if is_stub { em.raw(&format!("{}{{ unimplemented!() }}", indent)); } else { em.body(&block, if in_impl || in_trait.is_some() { 1 } else { 0 }, &ex.file, proof_entry.as_deref(), &loopspecs); }
@@ -706,7 +711,7 @@ fn emit_lifted(cx: &mut Ctx, specs: &mut Specs, em: &mut Emitter, gens: &[&syn::
     if let Some(sp) = specs.get(&format!("fn {}", lc.name)) { em.raw_block(&sp, ""); }
     let proof_entry = entry_text(cx, specs.get(&format!("proof {} entry", lc.name)));
     let mut loopspecs: BTreeMap<usize, (String, Option<String>, Option<String>)> = BTreeMap::new();
-    for k in 0..nloops { loopspecs.insert(k, (specs.get(&format!("loop {} {}", lc.name, k)).unwrap_or_default(), specs.get(&format!("proof {} loop {} start", lc.name, k)), specs.get(&format!("proof {} loop {} end", lc.name, k)))); }
+    for k in 0..nloops { loopspecs.insert(k, (specs.get(&format!("loop {} {}", lc.name, k)).unwrap_or_default(), entry_text(cx, specs.get(&format!("proof {} loop {} start", lc.name, k))), specs.get(&format!("proof {} loop {} end", lc.name, k)))); }
     em.body(&block, 0, file, proof_entry.as_deref(), &loopspecs);
     em.functions.push(emit::FnInfo { name: lc.name.clone(), file: file.to_string(), src_line: lc.line, gen_start: fn_start, gen_end: em.line(), kind: "fn".into(), path: lc.name.clone(), loops: nloops, captured: lc.captures.clone() });
     for (id, wh) in probes { em.probes.push((id, lc.name.clone(), wh)); }
